@@ -169,7 +169,7 @@ func genHistory(r *run.Rand) *Case {
 	cs.W = genWidth(r)
 	cs.Trim = r.Intn(4) != 0
 	cs.NoHide = r.Intn(12) == 0
-	cs.Fmt = r.Intn(10) == 0
+	cs.Fmt = r.Intn(6) == 0
 	fit := !cs.Trim && r.Intn(10) < 7 // trimming off: mostly texts that fit
 	alpha := r.Intn(4)
 	colourP := []float64{0, 0.3, 0.6, 1}[r.Intn(4)]
